@@ -34,10 +34,39 @@ static uint64_t mix(const std::vector<uint64_t>& a) {
   for (uint64_t x : a) { h ^= x + 0x9E3779B97F4A7C15ull + (h << 6) + (h >> 2); h *= 0xD6E8FEB86659FD93ull; }
   return h;
 }
+// An adversarial callee: it destroys every caller-saved register the ABI lets it destroy (GP, all vector registers incl. the
+// upper halves and zmm16-31, mask registers), so a value the allocator wrongly keeps in such a register across a call is lost.
+static void trash_caller_saved() {
+#if defined(__x86_64__)
+  static const bool has512 = __builtin_cpu_supports("avx512f") && __builtin_cpu_supports("avx512bw");
+  if (has512) {
+    __asm__ volatile(
+      "vpternlogd $0xff, %%zmm0, %%zmm0, %%zmm0\n vpternlogd $0xff, %%zmm1, %%zmm1, %%zmm1\n vpternlogd $0xff, %%zmm2, %%zmm2, %%zmm2\n vpternlogd $0xff, %%zmm3, %%zmm3, %%zmm3\n"
+      "vpternlogd $0xff, %%zmm4, %%zmm4, %%zmm4\n vpternlogd $0xff, %%zmm5, %%zmm5, %%zmm5\n vpternlogd $0xff, %%zmm6, %%zmm6, %%zmm6\n vpternlogd $0xff, %%zmm7, %%zmm7, %%zmm7\n"
+      "vpternlogd $0xff, %%zmm8, %%zmm8, %%zmm8\n vpternlogd $0xff, %%zmm9, %%zmm9, %%zmm9\n vpternlogd $0xff, %%zmm10, %%zmm10, %%zmm10\n vpternlogd $0xff, %%zmm11, %%zmm11, %%zmm11\n"
+      "vpternlogd $0xff, %%zmm12, %%zmm12, %%zmm12\n vpternlogd $0xff, %%zmm13, %%zmm13, %%zmm13\n vpternlogd $0xff, %%zmm14, %%zmm14, %%zmm14\n vpternlogd $0xff, %%zmm15, %%zmm15, %%zmm15\n"
+      "vpternlogd $0xff, %%zmm16, %%zmm16, %%zmm16\n vpternlogd $0xff, %%zmm17, %%zmm17, %%zmm17\n vpternlogd $0xff, %%zmm18, %%zmm18, %%zmm18\n vpternlogd $0xff, %%zmm19, %%zmm19, %%zmm19\n"
+      "vpternlogd $0xff, %%zmm20, %%zmm20, %%zmm20\n vpternlogd $0xff, %%zmm21, %%zmm21, %%zmm21\n vpternlogd $0xff, %%zmm22, %%zmm22, %%zmm22\n vpternlogd $0xff, %%zmm23, %%zmm23, %%zmm23\n"
+      "vpternlogd $0xff, %%zmm24, %%zmm24, %%zmm24\n vpternlogd $0xff, %%zmm25, %%zmm25, %%zmm25\n vpternlogd $0xff, %%zmm26, %%zmm26, %%zmm26\n vpternlogd $0xff, %%zmm27, %%zmm27, %%zmm27\n"
+      "vpternlogd $0xff, %%zmm28, %%zmm28, %%zmm28\n vpternlogd $0xff, %%zmm29, %%zmm29, %%zmm29\n vpternlogd $0xff, %%zmm30, %%zmm30, %%zmm30\n vpternlogd $0xff, %%zmm31, %%zmm31, %%zmm31\n"
+      "kxnorq %%k0, %%k0, %%k0\n kxnorq %%k1, %%k1, %%k1\n kxnorq %%k2, %%k2, %%k2\n kxnorq %%k3, %%k3, %%k3\n kxnorq %%k4, %%k4, %%k4\n kxnorq %%k5, %%k5, %%k5\n kxnorq %%k6, %%k6, %%k6\n kxnorq %%k7, %%k7, %%k7\n"
+      "vzeroupper\n" ::: "memory");
+  } else {
+    __asm__ volatile(
+      "pcmpeqd %%xmm0, %%xmm0\n pcmpeqd %%xmm1, %%xmm1\n pcmpeqd %%xmm2, %%xmm2\n pcmpeqd %%xmm3, %%xmm3\n pcmpeqd %%xmm4, %%xmm4\n pcmpeqd %%xmm5, %%xmm5\n pcmpeqd %%xmm6, %%xmm6\n pcmpeqd %%xmm7, %%xmm7\n"
+      "pcmpeqd %%xmm8, %%xmm8\n pcmpeqd %%xmm9, %%xmm9\n pcmpeqd %%xmm10, %%xmm10\n pcmpeqd %%xmm11, %%xmm11\n pcmpeqd %%xmm12, %%xmm12\n pcmpeqd %%xmm13, %%xmm13\n pcmpeqd %%xmm14, %%xmm14\n pcmpeqd %%xmm15, %%xmm15\n"
+      ::: "xmm0", "xmm1", "xmm2", "xmm3", "xmm4", "xmm5", "xmm6", "xmm7", "xmm8", "xmm9", "xmm10", "xmm11", "xmm12", "xmm13", "xmm14", "xmm15", "memory");
+  }
+  __asm__ volatile("mov $0x5a5a5a5a5a5a5a5a, %%rcx\n mov %%rcx, %%rdx\n mov %%rcx, %%rsi\n mov %%rcx, %%rdi\n mov %%rcx, %%r8\n mov %%rcx, %%r9\n mov %%rcx, %%r10\n mov %%rcx, %%r11\n"
+                   ::: "rcx", "rdx", "rsi", "rdi", "r8", "r9", "r10", "r11", "cc", "memory");
+#endif
+}
 template<typename... A> static uint64_t helper(A... a) {
   std::vector<uint64_t> v{uint64_t(a)...};
   g_calls.push_back(v);
-  return mix(v);
+  uint64_t r = mix(v);
+  trash_caller_saved();
+  return r;
 }
 template<size_t> using U64 = uint64_t;
 template<size_t... I> static void* helper_ptr_n(std::index_sequence<I...>) { return (void*)(uint64_t(*)(U64<I>...))helper<U64<I>...>; }
